@@ -200,6 +200,10 @@ func c12DecInner(r *h.R, c h.C12DecCase, in []byte) h.Result {
 		if err := sk.UnmarshalBinary(pre); err != nil {
 			return r.Fail("sr25519.SecretKey.UnmarshalBinary:rejected-valid", "fixture: %v", err).Result()
 		}
+		// the receiver is USED before it is re-used for the next decode: nothing
+		// derived from the first key may survive into the second one
+		_ = sk.PublicKey()
+		_ = sk.KeyPair()
 		r.Eval(3)
 		err := sk.UnmarshalBinary(in)
 		if (err == nil) != want {
@@ -222,6 +226,9 @@ func c12DecInner(r *h.R, c h.C12DecCase, in []byte) h.Result {
 			}
 			if got, exp := c12MustMarshal(sk.PublicKey()), rsk.SrPublicKeyFast(); !bytes.Equal(got, exp) {
 				return r.Fail("sr25519.SecretKey.PublicKey:not-schnorrkel", "sk=%x got=%x want=%x", in, got, exp).Result()
+			}
+			if got, exp := c12MustMarshal(sk.KeyPair()), append(append([]byte(nil), in...), rsk.SrPublicKeyFast()...); !bytes.Equal(got, exp) {
+				return r.Fail("sr25519.SecretKey.KeyPair:not-schnorrkel", "sk=%x got=%x want=%x", in, got, exp).Result()
 			}
 		} else {
 			if got := c12MustMarshal(sk); !bytes.Equal(got, pre) || !bytes.Equal(key, pre[:32]) || !bytes.Equal(nonce, pre[32:]) {
